@@ -911,26 +911,37 @@ def timeoutAct (cfg : Cfg) (l : Led) (h : Nat) (tx : Tx) (rc : Rcpt) : TOAct :=
 def pushAt (m : KV Nat (List TxId)) (h : Nat) (id : TxId) : KV Nat (List TxId) :=
   KV.set m h (KV.getD m h [] ++ [id])
 
+/-- the additions of a block per height (`addTimeoutListMap`), in block order -/
+def collectAdds (acts : List TOAct) (m0 : KV Nat (List TxId)) : KV Nat (List TxId) :=
+  acts.foldl (fun m a => match a with | .add th id => pushAt m th id | _ => m) m0
+
+/-- the removals of a block per height (`removeTimeoutListMap`) -/
+def collectRems (acts : List TOAct) (m0 : KV Nat (List TxId)) : KV Nat (List TxId) :=
+  acts.foldl (fun m a => match a with | .remove th id => pushAt m th id | _ => m) m0
+
+/-- `addTimeoutList` + `AddState` for one height -/
+def addStep (l : Led) (p : Nat × List TxId) : Led :=
+  let cur : List (Option TId) := match l.getS (.timeout p.1) with
+    | some (.tlist lst) => lst
+    | _ => [none]
+  let ids := p.2.map (fun t => some (TId.single t))
+  l.addS (.timeout p.1) (.tlist (if cur == [none] then ids else cur ++ ids))
+
+/-- `removeTimeoutList` + `SetState` for one height -/
+def remStep (l : Led) (p : Nat × List TxId) : Led :=
+  let cur : List (Option TId) := match l.getS (.timeout p.1) with
+    | some (.tlist lst) => lst
+    | _ => [none]
+  let nw := p.2.foldl (fun acc id => (goRemove acc (.single id)).getD acc) cur
+  l.setS (.timeout p.1) (some (.tlist (normList nw)))
+
 /-- `setTimeoutList` -/
 def setTimeoutList (cfg : Cfg) (l : Led) (h : Nat) (txs : List Tx) (rcpts : List Rcpt) : Led :=
   let acts := (txs.zip rcpts).map (fun p => timeoutAct cfg l h p.1 p.2)
   if acts.contains .abort then l
   else
-    let adds := acts.foldl (fun m a => match a with | .add th id => pushAt m th id | _ => m) ([] : KV Nat (List TxId))
-    let rems := acts.foldl (fun m a => match a with | .remove th id => pushAt m th id | _ => m) ([] : KV Nat (List TxId))
-    -- map iteration order is irrelevant: distinct heights touch distinct keys
-    let l1 := adds.foldl (fun l (p : Nat × List TxId) =>
-      let cur : List (Option TId) := match l.getS (.timeout p.1) with
-        | some (.tlist lst) => lst
-        | _ => [none]
-      let ids := p.2.map (fun t => some (TId.single t))
-      l.addS (.timeout p.1) (.tlist (if cur == [none] then ids else cur ++ ids))) l
-    rems.foldl (fun l (p : Nat × List TxId) =>
-      let cur : List (Option TId) := match l.getS (.timeout p.1) with
-        | some (.tlist lst) => lst
-        | _ => [none]
-      let nw := p.2.foldl (fun acc id => (goRemove acc (.single id)).getD acc) cur
-      l.setS (.timeout p.1) (some (.tlist (normList nw)))) l1
+    -- map iteration order is irrelevant: distinct heights touch distinct keys (`setTimeoutList_at`)
+    (collectRems acts []).foldl remStep ((collectAdds acts []).foldl addStep l)
 
 def notifyChain (cfg : Cfg) (s : SvcId) : String := if s.bxh ≠ cfg.bxh then unionPier else s.chain
 
